@@ -333,3 +333,35 @@ def affine_family(rng, n: int):
 }}
 """
         yield text, [16, 16], [16]
+
+
+def carried_family():
+    """scf.for with two or three loop-carried values whose yield permutes / mixes them (swap, rotation, Fibonacci-style), constant
+    bounds incl. zero-trip, steps 1-2: what an unroller or a lowering to block arguments must treat as a simultaneous assignment."""
+    yields2 = [("%b, %a", "swap"), ("%b, %s", "fib"), ("%a, %s", "keep-first"), ("%s, %a", "sum-then-old-first"), ("%b, %b", "dup-second")]
+    yields3 = [("%b, %c, %a", "rotate-left"), ("%c, %a, %b", "rotate-right"), ("%b, %a, %s", "swap-two"), ("%c, %s, %a", "mix")]
+    for (lb, ub, st) in [(0, 0, 1), (0, 1, 1), (0, 2, 1), (0, 3, 1), (1, 4, 2), (0, 5, 2), (2, 1, 1)]:
+        for y, _tag in yields2:
+            yield (f"""func.func @main(%x : i16, %y : i16) -> (i16, i16) {{
+  %lb = arith.constant {lb} : index
+  %ub = arith.constant {ub} : index
+  %st = arith.constant {st} : index
+  %r:2 = scf.for %i = %lb to %ub step %st iter_args(%a = %x, %b = %y) -> (i16, i16) {{
+    %s = arith.addi %a, %b : i16
+    scf.yield {y} : i16, i16
+  }}
+  func.return %r#0, %r#1 : i16, i16
+}}
+""", [16, 16], [16, 16])
+        for y, _tag in yields3:
+            yield (f"""func.func @main(%x : i16, %y : i16, %z : i16) -> (i16, i16, i16) {{
+  %lb = arith.constant {lb} : index
+  %ub = arith.constant {ub} : index
+  %st = arith.constant {st} : index
+  %r:3 = scf.for %i = %lb to %ub step %st iter_args(%a = %x, %b = %y, %c = %z) -> (i16, i16, i16) {{
+    %s = arith.subi %a, %c : i16
+    scf.yield {y} : i16, i16, i16
+  }}
+  func.return %r#0, %r#1, %r#2 : i16, i16, i16
+}}
+""", [16, 16, 16], [16, 16, 16])
